@@ -278,6 +278,8 @@ def host_perturbations(host):
         kinds.append("schedule")
     if host.get("tty"):
         kinds.append("tty")
+    if host.get("extra_env"):
+        kinds.append("discovered_env")
     if host.get("user") or host.get("hostname") or host.get("columns") or host.get("umask") is not None:
         kinds.append("identity")
     return kinds
